@@ -27,7 +27,7 @@ class _Trace(collectors.Collector):
 class CompletingModel(core.Model):
     __slots__ = ['log', 'step_ran', 'tc']
 
-    def __init__(self, tc, n_before=2, n_after=2):
+    def __init__(self, tc, n_before=2, n_after=2, trace_freq=1):
         super().__init__()
         self.log, self.step_ran, self.tc = [], [], tc
         for j in range(n_before):
@@ -35,7 +35,7 @@ class CompletingModel(core.Model):
         self.systems.add_system(_Completer('completer', self, priority=0))
         for j in range(n_after):
             self.systems.add_system(_Log(f'a{j}', self, priority=-1 - j))
-        self.systems.add_system(_Trace('trace', self, priority=-10))
+        self.systems.add_system(_Trace('trace', self, priority=-10, frequency=trace_freq))
 
 
 def score_trace(model):
